@@ -57,10 +57,15 @@ func TestC41(t *testing.T) {
 		// In burst mode several application calls and deliveries are released at
 		// once, so the scenario oracles written for one-event-at-a-time stepping
 		// are not valid; only the race detector (a dead worker) judges here.
-		Keep: func(_, key string) bool { return key == "worker-crash" },
+		// The one state oracle that is valid in burst mode: immutability of
+		// the client's published copy-on-write maps (lib/cowwatch, VERIF_COW=1).
+		Keep: func(_, key string) bool { return key == "worker-crash" || key == "cow-mutated" },
 		KeyOf: func(scenario, key string) string {
 			if key == "worker-crash" {
 				return "C41:" + scenario + ":race-or-crash"
+			}
+			if key == "cow-mutated" {
+				return "C41:" + scenario + ":published-snapshot-mutated"
 			}
 			return "C41:" + scenario + ":" + key
 		},
